@@ -48,14 +48,19 @@ def handle : List String → String
       if b < 2 ^ 32 then
         let i16 := float2Int16 b
         let i24 := res2Int24 b
-        s!"{outCls b i16 i24} i16={i16} i24={i24} f={res2Float b}"
+        -- a NaN sample is outside the property: its 16-bit conversion (−32768 in the model, `out16_spec`) is not
+        -- bound by the tie, so that a reordering of the two clamps (which only changes the NaN case) is not an alarm
+        if isNaN b then s!"nan i16=any i24={i24} f={res2Float b}"
+        else s!"{outCls b i16 i24} i16={i16} i24={i24} f={res2Float b}"
       else "bad-op"
     | none => "bad-op"
   | ["f2i16", hex] =>
     match parseHex hex with
     | some bs =>
       match bytesToBits bs with
-      | some xs => s!"n={xs.length} {intList (celtFloat2Int16 xs)}"
+      | some xs =>
+        let strs := (List.zip xs (celtFloat2Int16 xs)).map (fun p => if isNaN p.1 then "nan" else toString p.2)
+        s!"n={xs.length} {",".intercalate strs}"
       | none => "bad-op"
     | none => "bad-op"
   | ["proj", cells, hex] =>
